@@ -23,7 +23,10 @@ class Prop(RefProp):
         cases = []
         for _ in range(n):
             case = gen_pipes.gen_case(rng, self.profile)
-            if rng.random() < 0.06:
+            r = rng.random()
+            if r < 0.06:
                 gen_pipes.main_parser_failure(rng, case)
+            elif r < 0.12:
+                gen_pipes.handler_jumps(rng, case)
             cases.append(case)
         return cases
